@@ -971,3 +971,29 @@ impl SrtlaConnection {
         self.reconnection.reconnect_failure_count = 0;
     }
 }
+
+/// Verification hooks: read-only views of guard-private state. No setters.
+#[cfg(feature = "verif-hooks")]
+impl SrtlaConnection {
+    /// `(stall_latched_since_ms, stall_recovery_since_ms, silence_pulled, stall_probe_counter)`
+    pub fn verif_guard_state(&self) -> (u64, u64, bool, u32) {
+        (
+            self.stall_latched_since_ms,
+            self.stall_recovery_since_ms,
+            self.silence_pulled,
+            self.stall_probe_counter,
+        )
+    }
+
+    /// `(multiplier, last_calculated_ms)` of the quality cache.
+    pub fn verif_quality_cache(&self) -> (f64, u64) {
+        (
+            self.quality_cache.multiplier,
+            self.quality_cache.last_calculated_ms,
+        )
+    }
+
+    pub fn verif_conn_timeout_ms(&self) -> u64 {
+        self.conn_timeout_ms
+    }
+}
